@@ -1328,3 +1328,19 @@ package zygo
 //@ C02,C04,C09 assert scope-count-tracks-open-scopes @before call Generate[*]: arg0 != gen && arg0.scopes == old(gen.scopes) + opened && opened == 1 && !arg0.Tail && arg0.funcname == gen.funcname
 //@ C02,C04,C09 assert scope-count-tracks-open-scopes @before call GenerateBegin[*]: arg0 != gen && arg0.scopes == old(gen.scopes) + opened && opened == 1 && !arg0.Tail && arg0.funcname == gen.funcname
 //@ C02,C04,C09 ensures scope-count-balanced: r0 == nil ==> gen.scopes == old(gen.scopes) && opened == 0
+
+// C17: instances keep the definition that was in force when they were created. A registered
+// type's definition is attached when the type object is made and never replaced (existing
+// instances point at the type object); a definition's fields are filled in on a definition
+// made in the same declaration, never on one that instances may already be using.
+//@ func NewRegisteredType
+//@ assume pure
+//@ assume ensures fresh(r0)
+//@ func NewRecordDefn
+//@ C17 pure
+//@ C17 ensures fresh(r0)
+//@ func StructBuilder
+//@ C17 assert definition-attached-to-a-new-type-only @before call store_RegisteredType_UserStructDefn[*]: fresh(arg0)
+//@ C17 assert fields-set-on-a-new-definition-only @before call SetFields[*]: fresh(arg0)
+//@ writers C17 RegisteredType | UserStructDefn | StructBuilder
+//@ writers C17 RecordDefn | Fields, FieldType | (*RecordDefn).SetFields, NewRecordDefn
